@@ -7,7 +7,7 @@ PROP = dict(
     technique="explicit exploration of ALL request histories up to a depth on the real per-thread plan caches (one fresh thread per history), "
               "for cache sizes 1, 2, 4; hook-observed LRU discipline + bit-identical results against a fresh thread",
     claim="for K in {1,2,4} (three builds) and five alphabets (complex, real, mixed, one whose histories contain rejected requests - odd irfft lengths, a plan applied to another length - and two with long-lived plan objects: FftPlan/FftPlanR/IfftPlan, and IfftPlanR/CztPlan) every request "
-          "sequence of length <= 6 (thorough 8; 5/6 for the 10-letter alphabet) is executed in a fresh thread and its last request is checked for "
+          "sequence of length <= 6 (thorough 8; 5/6 for the 10-letter alphabets) is executed in a fresh thread and its last request is checked for "
           "(1) bit-identical result versus a brand-new thread and (2) the LRU discipline of both caches read through the DSPLIB_VERIF accessor; "
           "plus a deterministic 10^4-request sequence over 40 lengths with held plans, and an ASan pass (use after eviction). Exhaustive "
           "within the depth; longer histories are covered only by the long sequence.",
